@@ -81,6 +81,7 @@ def check_c01(prog, rep, tier, cfg):
     c01c(prog, rep)
     check_c01d(prog, rep)
     check_c01f(prog, rep)
+    normaliser_values(prog, rep, "C01.i")
 
 
 def c01a(prog, rep):
@@ -189,11 +190,39 @@ def c01a(prog, rep):
                   instance={"caller": short(b.npath), "other_uses_of_buffer": others})
 
 
+def set_content_callers(prog):
+    """(callers of Token::set_content, callers that are not part of a reviewed normaliser, reviewed normalisers that no longer replace text).
+    A private helper called only from a reviewed normaliser (its per-token step, say) is part of that normaliser."""
+    from layout import helper_closure
+    callers = {c.body.npath for c in prog.who_calls(SET_CONTENT)}
+    part = helper_closure(prog, callers, SET_CONTENT_CALLERS)
+    extra = {x for x in callers if x not in SET_CONTENT_CALLERS and x not in part}
+    owners = set()
+    for x in callers:
+        if x in SET_CONTENT_CALLERS:
+            owners.add(x)
+        elif x in part:
+            # whose part: the reviewed normalisers that (transitively) call it
+            seen, todo = set(), [x]
+            while todo:
+                y = todo.pop()
+                if y in seen:
+                    continue
+                seen.add(y)
+                for c in prog.who_calls(y.split("::{closure")[0]):
+                    r = c.body.npath.split("::{closure")[0]
+                    if r in SET_CONTENT_CALLERS:
+                        owners.add(r)
+                    elif c.body.crate.startswith("pasfmt"):
+                        todo.append(r)
+    return callers, extra, SET_CONTENT_CALLERS - owners
+
+
 def c01b(prog, rep):
     R = "C01.b"
-    callers = {c.body.npath for c in prog.who_calls(SET_CONTENT)}
-    rep.check(callers == SET_CONTENT_CALLERS, R, "who-calls:set_content",
-              "token text is replaced outside the reviewed normalisers: unexpected %s, missing %s" % (sorted(short(x) for x in callers - SET_CONTENT_CALLERS), sorted(short(x) for x in SET_CONTENT_CALLERS - callers)),
+    callers, extra, missing = set_content_callers(prog)
+    rep.check(not extra and not missing, R, "who-calls:set_content",
+              "token text is replaced outside the reviewed normalisers: unexpected %s, missing %s" % (sorted(short(x) for x in extra), sorted(short(x) for x in missing)),
               instance={"callers": sorted(short(x) for x in callers)})
     rep.floor(R, "set_content call sites", len(prog.who_calls(SET_CONTENT)), 4)
     for f in ("content", "ws_len"):
@@ -1065,10 +1094,20 @@ def characters_compared_as_characters(prog, rep, R, prefixes=("pasfmt_core::rule
 def documented_normalisations(prog, rep, R):
     """C02.h — token text changes only through the documented normalisations, each applied to its own token kind:
     who calls set_content, under which token-type facts, and what each caller hands over."""
+    normaliser_values(prog, rep, R)
+    check_c01f(prog, rep, R)
+    import strings
+    strings.skip_discipline(prog, rep, R)
+
+
+def normaliser_values(prog, rep, R):
+    """C02.h / C01.i — who calls set_content, under which token-type facts, and what each caller hands over: keyword lower-casing hands
+    over the case-mapped text of that same token (not a spelling looked up elsewhere: a lookup that matches more than the exact word
+    replaces other characters than letter case), the comment helpers are reached only for their own token kinds."""
     from progress import dominating_variant_facts
-    callers = {c.body.npath for c in prog.who_calls(SET_CONTENT)}
-    rep.check(callers == SET_CONTENT_CALLERS, R, "who-calls:set_content", "token text is replaced outside the reviewed normalisers: unexpected %s, missing %s"
-              % (sorted(short(x) for x in callers - SET_CONTENT_CALLERS), sorted(short(x) for x in SET_CONTENT_CALLERS - callers)), instance={"callers": sorted(short(x) for x in callers)})
+    callers, extra, missing = set_content_callers(prog)
+    rep.check(not extra and not missing, R, "who-calls:set_content", "token text is replaced outside the reviewed normalisers: unexpected %s, missing %s"
+              % (sorted(short(x) for x in extra), sorted(short(x) for x in missing)), instance={"callers": sorted(short(x) for x in callers)})
     # keywords: lower-casing of the token's own text, on Keyword tokens only
     kw = [b for b in prog.bodies.values() if b.npath.endswith("LowercaseKeywords as pasfmt_core::traits::LogicalLineFileFormatter>::format")]
     if rep.check(len(kw) == 1, R, "anchor:LowercaseKeywords::format", "LowercaseKeywords::format not found"):
@@ -1116,9 +1155,6 @@ def documented_normalisations(prog, rep, R):
                       instance={"helper": helper, "kinds": seen})
         others = {(c.callee or "").split("::")[-1] for c in b.calls() if "comment_contents::" in (c.callee or "")} - set(want)
         rep.check(not others, R, "dispatch:closed", "CommentFormatter::format calls further text helpers: %s" % sorted(others))
-    check_c01f(prog, rep, R)
-    import strings
-    strings.skip_discipline(prog, rep, R)
 
 
 PROPERTIES = {
